@@ -131,3 +131,303 @@ def linear_method(it, pt, lk, uk, has_den, vkind):
         return
     H.check("C07:valid-physical-values-convert-without-error", True)
     H.check("C07,C03:physical-image-converts-back-to-the-internal-value", x2 == x)
+
+
+# ------------------------------------------------------------------------------------------------- SCALE-LINEAR
+from odxtools.compumethods.scalelinearcompumethod import ScaleLinearCompuMethod  # noqa: E402
+from odxtools.compumethods.tabintpcompumethod import TabIntpCompuMethod  # noqa: E402
+from odxtools.compumethods.compuconst import CompuConst  # noqa: E402
+
+
+def _scale_family(tier, seed):
+    out = []
+    for k in ((1, 2) if tier == "quick" else (1, 2, 3, 4)):
+        for it, pt in (("A_INT32", "A_FLOAT64"), ("A_FLOAT64", "A_FLOAT64")):
+            for boundary in ("closed-closed", "closed-open"):
+                out.append({"k": k, "it": it, "pt": pt, "boundary": boundary})
+    return out
+
+
+@harness(props=["C07", "C03"], strength="B", family=_scale_family,
+         bound="1..2 (quick) / 1..4 (thorough) scales; real coefficients, limits and values symbolic",
+         functions=[ScaleLinearCompuMethod.__post_init__, ScaleLinearCompuMethod.convert_internal_to_physical,
+                    ScaleLinearCompuMethod.convert_physical_to_internal,
+                    ScaleLinearCompuMethod.is_valid_internal_value, ScaleLinearCompuMethod.is_valid_physical_value],
+         covers=["valid", "invalid"], assumes=["A-float"], crosscheck=False)
+def scale_linear_method(k, it, pt, boundary):
+    """SCALE-LINEAR: value of the first scale whose interval contains x; valid iff some interval contains x; a monotone
+    continuous method can always encode and converts back"""
+    bounds = [number(f"b{i}", it) for i in range(k + 1)]
+    for i in range(k):
+        H.assume(bounds[i] < bounds[i + 1])
+    scales, coeffs = [], []
+    for i in range(k):
+        offset, factor = H.real(f"offset{i}"), H.real(f"factor{i}")
+        coeffs.append((offset, factor))
+        upper_kind = IntervalType.CLOSED if (boundary == "closed-closed" or i == k - 1) else IntervalType.OPEN
+        scales.append(CompuScale(
+            short_label=None, description=None,
+            lower_limit=Limit(value_raw=str(bounds[i]), value_type=DataType[it], interval_type=IntervalType.CLOSED),
+            upper_limit=Limit(value_raw=str(bounds[i + 1]), value_type=DataType[it], interval_type=upper_kind),
+            compu_inverse_value=None, compu_const=None,
+            compu_rational_coeffs=CompuRationalCoeffs(value_type=DataType[pt], numerators=[offset, factor],
+                                                      denominators=[]),
+            domain_type=DataType[it], range_type=DataType[pt]))
+    cm = ScaleLinearCompuMethod(category=CompuCategory.SCALE_LINEAR,
+                                compu_internal_to_phys=CompuInternalToPhys(compu_scales=scales, prog_code=None,
+                                                                           compu_default_value=None),
+                                compu_phys_to_internal=None, physical_type=DataType[pt], internal_type=DataType[it])
+    x = number("x", it)
+    inside = [H.And(bounds[i] <= x, (x <= bounds[i + 1]) if (boundary == "closed-closed" or i == k - 1) else
+                    (x < bounds[i + 1])) for i in range(k)]
+    spec_valid = H.Or(inside)
+    H.check("C07:internal-validity-is-membership-in-some-scale", H.eq(cm.is_valid_internal_value(x), spec_valid))
+    try:
+        y = cm.convert_internal_to_physical(x)
+    except DecodeError:
+        H.cover("invalid")
+        H.check("C07:only-invalid-internal-values-are-rejected", H.Not(spec_valid))
+        return
+    H.cover("valid")
+    H.check("C07:only-invalid-internal-values-are-rejected", spec_valid)
+    exact = None
+    for i in reversed(range(k)):
+        e_i = coeffs[i][0] + coeffs[i][1] * x
+        exact = e_i if exact is None else H.ite(inside[i], e_i, exact)
+    H.check("C07:physical-value-is-the-formula-of-the-first-applicable-scale", y == exact)
+    # monotone (all slopes of one sign, none zero) and continuous at the shared boundaries
+    same_sign = H.Or(H.And([c[1] > 0 for c in coeffs]), H.And([c[1] < 0 for c in coeffs]))
+    continuous = H.And([coeffs[i][0] + coeffs[i][1] * bounds[i + 1] == coeffs[i + 1][0] + coeffs[i + 1][1] * bounds[i + 1]
+                        for i in range(k - 1)])
+    H.assume(H.And(same_sign, continuous))
+    H.check("C07:image-of-a-valid-internal-value-is-a-valid-physical-value", cm.is_valid_physical_value(y))
+    try:
+        x2 = cm.convert_physical_to_internal(y)
+    except OdxError:
+        H.check("C07:a-monotone-continuous-piecewise-linear-method-can-always-encode", False)
+        return
+    H.check("C07:a-monotone-continuous-piecewise-linear-method-can-always-encode", True)
+    H.check("C07,C03:physical-image-converts-back-to-the-internal-value", x2 == x)
+
+
+# ------------------------------------------------------------------------------------------------- TAB-INTP
+def _tab_family(tier, seed):
+    out = []
+    for k in ((2, 3) if tier == "quick" else (2, 3, 4)):
+        for it, pt in (("A_INT32", "A_FLOAT64"), ("A_FLOAT64", "A_INT32"), ("A_INT32", "A_INT32")):
+            out.append({"k": k, "it": it, "pt": pt})
+    return out
+
+
+@harness(props=["C07", "C03"], strength="B", family=_tab_family,
+         bound="interpolation tables of 2..3 (quick) / 2..4 (thorough) points; points and values symbolic",
+         functions=[TabIntpCompuMethod.__post_init__, TabIntpCompuMethod.convert_internal_to_physical,
+                    TabIntpCompuMethod.convert_physical_to_internal, TabIntpCompuMethod.is_valid_internal_value,
+                    TabIntpCompuMethod.is_valid_physical_value,
+                    TabIntpCompuMethod._TabIntpCompuMethod__piecewise_linear_interpolate],
+         covers=["valid", "invalid"], assumes=["A-float"], crosscheck=False)
+def tab_intp_method(k, it, pt):
+    """TAB-INTP: linear interpolation between the table points (nearest integer for integer physical types); valid iff
+    inside the table; every valid physical value of a monotone table converts without error"""
+    xs = [number(f"xp{i}", it) for i in range(k)]
+    ys = [number(f"yp{i}", pt) for i in range(k)]
+    for i in range(k - 1):
+        H.assume(xs[i] < xs[i + 1])
+    scales = [CompuScale(short_label=None, description=None,
+                         lower_limit=Limit(value_raw=str(xs[i]), value_type=DataType[it],
+                                           interval_type=IntervalType.CLOSED),
+                         upper_limit=None, compu_inverse_value=None,
+                         compu_const=CompuConst(v=str(ys[i]), vt=None, data_type=DataType[pt]),
+                         compu_rational_coeffs=None, domain_type=DataType[it], range_type=DataType[pt])
+              for i in range(k)]
+    cm = TabIntpCompuMethod(category=CompuCategory.TAB_INTP,
+                            compu_internal_to_phys=CompuInternalToPhys(compu_scales=scales, prog_code=None,
+                                                                       compu_default_value=None),
+                            compu_phys_to_internal=None, physical_type=DataType[pt], internal_type=DataType[it])
+    x = number("x", it)
+    spec_valid = H.And(xs[0] <= x, x <= xs[k - 1])
+    H.check("C07:internal-validity-is-being-inside-the-table", H.eq(cm.is_valid_internal_value(x), spec_valid))
+    try:
+        y = cm.convert_internal_to_physical(x)
+    except OdxError:
+        H.cover("invalid")
+        H.check("C07:only-invalid-internal-values-are-rejected", H.Not(spec_valid))
+        return
+    H.cover("valid")
+    H.check("C07:only-invalid-internal-values-are-rejected", spec_valid)
+    exact = None
+    for i in reversed(range(k - 1)):
+        e_i = ys[i] + (x - xs[i]) * (ys[i + 1] - ys[i]) / (xs[i + 1] - xs[i])
+        exact = e_i if exact is None else H.ite(x <= xs[i + 1], e_i, exact)
+    if pt in S.INT_TYPES:
+        H.check("C07:integer-physical-value-is-the-nearest-integer-of-the-interpolation", S.is_nearest_integer(y, exact))
+    else:
+        H.check("C07:physical-value-is-the-linear-interpolation", y == exact)
+    # monotone tables: every physical value declared valid converts without error
+    mono = H.Or(H.And([ys[i] < ys[i + 1] for i in range(k - 1)]), H.And([ys[i] > ys[i + 1] for i in range(k - 1)]))
+    H.assume(mono)
+    yv = number("y", pt)
+    H.assume(cm.is_valid_physical_value(yv))
+    try:
+        cm.convert_physical_to_internal(yv)
+    except OdxError:
+        H.check("C07:valid-physical-values-of-a-monotone-table-convert-without-error", False)
+        return
+    H.check("C07:valid-physical-values-of-a-monotone-table-convert-without-error", True)
+
+
+# ------------------------------------------------------------------------------------------------- RAT-FUNC
+from odxtools.compumethods.compuphystointernal import CompuPhysToInternal  # noqa: E402
+from odxtools.compumethods.ratfunccompumethod import RatFuncCompuMethod  # noqa: E402
+from odxtools.compumethods.ratfuncsegment import RatFuncSegment  # noqa: E402
+
+
+def _ratfunc_family(tier, seed):
+    out = []
+    for it, pt in (("A_INT32", "A_FLOAT64"), ("A_FLOAT64", "A_INT32"), ("A_FLOAT64", "A_FLOAT64")):
+        for nnum, nden in ((2, 0), (3, 1), (2, 2)) if tier == "quick" else ((1, 0), (2, 0), (3, 0), (2, 1), (3, 1), (2, 2), (3, 2)):
+            for vkind in ("int", "float"):
+                out.append({"it": it, "pt": pt, "nnum": nnum, "nden": nden, "vkind": vkind})
+    return out
+
+
+@harness(props=["C07", "C05"], strength="B", family=_ratfunc_family,
+         bound="numerator polynomials with 1..3 coefficients, denominator polynomials with 0..2 coefficients (loops "
+         "over the coefficient lists unrolled); coefficients, limits and values symbolic",
+         functions=[RatFuncCompuMethod.__post_init__, RatFuncCompuMethod.convert_internal_to_physical,
+                    RatFuncCompuMethod.is_valid_internal_value, RatFuncSegment.convert, RatFuncSegment.applies],
+         covers=["valid", "invalid"], assumes=["A-float"], crosscheck=False)
+def rat_func_method(it, pt, nnum, nden, vkind):
+    """RAT-FUNC: internal->physical = numerator polynomial / denominator polynomial exactly (nearest integer for integer
+    physical types); validity = admissible internal type and inside the limits; no foreign exception escapes"""
+    num = [H.real(f"n{i}") for i in range(nnum)]
+    den = [H.real(f"d{i}") for i in range(nden)]
+    lo, up = number("lower", it), number("upper", it)
+    H.assume(lo <= up)
+    scale = CompuScale(short_label=None, description=None,
+                       lower_limit=Limit(value_raw=str(lo), value_type=DataType[it], interval_type=IntervalType.CLOSED),
+                       upper_limit=Limit(value_raw=str(up), value_type=DataType[it], interval_type=IntervalType.CLOSED),
+                       compu_inverse_value=None, compu_const=None,
+                       compu_rational_coeffs=CompuRationalCoeffs(value_type=DataType[pt], numerators=num,
+                                                                 denominators=den),
+                       domain_type=DataType[it], range_type=DataType[pt])
+    cm = RatFuncCompuMethod(category=CompuCategory.RAT_FUNC,
+                            compu_internal_to_phys=CompuInternalToPhys(compu_scales=[scale], prog_code=None,
+                                                                       compu_default_value=None),
+                            compu_phys_to_internal=None, physical_type=DataType[pt], internal_type=DataType[it])
+    x = H.int("x") if vkind == "int" else H.real("x")
+    spec_valid = H.And(S.type_admits(it, vkind), lo <= x, x <= up)
+    H.check("C07:internal-validity-is-admissible-type-and-inside-the-limits",
+            H.eq(cm.is_valid_internal_value(x), spec_valid))
+    p = 0
+    for i in reversed(range(nnum)):
+        p = p * x + num[i]
+    q = 0
+    for i in reversed(range(nden)):
+        q = q * x + den[i]
+    if nden == 0:
+        q = 1  # no COMPU-DENOMINATOR: the denominator is one
+    try:
+        y = cm.convert_internal_to_physical(x)
+    except DecodeError:
+        H.cover("invalid")
+        H.check("C07:only-invalid-internal-values-or-poles-are-rejected", H.Or(H.Not(spec_valid), q == 0))
+        return
+    except OdxError:
+        H.check("C05:decode-side-conversion-errors-are-decode-errors", False)
+        return
+    except Exception:
+        H.check("C05:no-foreign-exception-from-the-conversion", False)
+        return
+    H.cover("valid")
+    H.check("C05:no-foreign-exception-from-the-conversion", True)
+    H.check("C07:only-invalid-internal-values-or-poles-are-rejected", spec_valid)
+    H.assume(q != 0)
+    if pt in S.INT_TYPES:
+        H.check("C07:integer-physical-value-is-the-nearest-integer-of-the-exact-formula", S.is_nearest_integer(y, p / q))
+    else:
+        H.check("C07:physical-value-is-the-exact-rational-function", y == p / q)
+
+
+# ------------------------------------------------------------------------------------------------- IDENTICAL, TEXTTABLE
+from odxtools.compumethods.identicalcompumethod import IdenticalCompuMethod  # noqa: E402
+from odxtools.compumethods.texttablecompumethod import TexttableCompuMethod  # noqa: E402
+
+_ADMISSIBLE = {"A_UINT32": ("int", "bool"), "A_INT32": ("int", "bool"), "A_FLOAT32": ("int", "bool", "float"),
+               "A_FLOAT64": ("int", "bool", "float"), "A_BYTEFIELD": ("bytes", "bytearray"),
+               "A_ASCIISTRING": ("str",), "A_UTF8STRING": ("str",), "A_UNICODE2STRING": ("str",)}
+
+
+@harness(props=["C07", "C03"], strength="E",
+         family=lambda t, s: [{"dt": dt, "kind": k} for dt in _ADMISSIBLE
+                              for k in ("int", "bool", "float", "str", "bytes", "bytearray", "none")],
+         functions=[IdenticalCompuMethod.convert_internal_to_physical, IdenticalCompuMethod.convert_physical_to_internal,
+                    IdenticalCompuMethod.is_valid_internal_value, IdenticalCompuMethod.is_valid_physical_value,
+                    DataType.isinstance], covers=["done"], crosscheck=False)
+def identical_method(dt, kind):
+    """IDENTICAL: both conversions are the identity; a value is valid exactly when its type is admissible"""
+    cm = IdenticalCompuMethod(category=CompuCategory.IDENTICAL, compu_internal_to_phys=None,
+                              compu_phys_to_internal=None, physical_type=DataType[dt], internal_type=DataType[dt])
+    v = H.value_of_kind("v", kind)
+    ok = kind in _ADMISSIBLE[dt]
+    H.check("C07:identical-validity-is-type-admissibility",
+            H.And(H.eq(cm.is_valid_internal_value(v), ok), H.eq(cm.is_valid_physical_value(v), ok)))
+    H.check("C07,C03:identical-conversions-are-the-identity",
+            H.And(cm.convert_internal_to_physical(v) is v, cm.convert_physical_to_internal(v) is v))
+    H.cover("done")
+
+
+@harness(props=["C07", "C03"], strength="B", family=lambda t, s: [{"k": k, "ranges": r} for k in ((1, 2, 3) if t == "quick" else (1, 2, 3, 4))
+                                                                  for r in (False, True)],
+         bound="text tables of 1..3 (quick) / 1..4 (thorough) scales; limits and values symbolic integers, texts distinct",
+         functions=[TexttableCompuMethod.__post_init__, TexttableCompuMethod.convert_internal_to_physical,
+                    TexttableCompuMethod.convert_physical_to_internal, TexttableCompuMethod.is_valid_internal_value,
+                    TexttableCompuMethod.is_valid_physical_value, CompuScale.applies],
+         covers=["valid", "invalid"], crosscheck=False)
+def texttable_method(k, ranges):
+    """TEXTTABLE: internal->physical = text of the scale containing the value; valid iff some scale contains it; each
+    text converts without error to a value of its own scale, so text -> internal -> text is the identity"""
+    los = [H.int(f"lo{i}") for i in range(k)]
+    his = [H.int(f"hi{i}") for i in range(k)] if ranges else los
+    for i in range(k):
+        H.assume(los[i] <= his[i])
+    for i in range(k - 1):
+        H.assume(his[i] < los[i + 1])  # disjoint scales (overlapping scales are an ill-formed table)
+    scales = [CompuScale(short_label=None, description=None,
+                         lower_limit=Limit(value_raw=str(los[i]), value_type=DataType.A_UINT32,
+                                           interval_type=IntervalType.CLOSED),
+                         upper_limit=Limit(value_raw=str(his[i]), value_type=DataType.A_UINT32,
+                                           interval_type=IntervalType.CLOSED),
+                         compu_inverse_value=None, compu_const=CompuConst(v=None, vt=f"text{i}",
+                                                                        data_type=DataType.A_UNICODE2STRING),
+                         compu_rational_coeffs=None, domain_type=DataType.A_UINT32,
+                         range_type=DataType.A_UNICODE2STRING) for i in range(k)]
+    cm = TexttableCompuMethod(category=CompuCategory.TEXTTABLE,
+                              compu_internal_to_phys=CompuInternalToPhys(compu_scales=scales, prog_code=None,
+                                                                         compu_default_value=None),
+                              compu_phys_to_internal=None, physical_type=DataType.A_UNICODE2STRING,
+                              internal_type=DataType.A_UINT32)
+    x = H.int("x")
+    inside = [H.And(los[i] <= x, x <= his[i]) for i in range(k)]
+    H.check("C07:internal-validity-is-membership-in-some-scale", H.eq(cm.is_valid_internal_value(x), H.Or(inside)))
+    try:
+        t = cm.convert_internal_to_physical(x)
+    except DecodeError:
+        H.cover("invalid")
+        H.check("C07:only-invalid-internal-values-are-rejected", H.Not(H.Or(inside)))
+    else:
+        H.cover("valid")
+        for i in range(k):
+            if t == f"text{i}":
+                H.check("C07:physical-value-is-the-text-of-the-scale-containing-the-value", inside[i])
+        H.check("C07:physical-value-is-one-of-the-texts", t in [f"text{i}" for i in range(k)])
+        H.check("C07:image-of-a-valid-internal-value-is-a-valid-physical-value", cm.is_valid_physical_value(t))
+    for i in range(k):
+        H.check("C07:every-text-is-a-valid-physical-value", cm.is_valid_physical_value(f"text{i}"))
+        try:
+            xi = cm.convert_physical_to_internal(f"text{i}")
+        except OdxError:
+            H.check("C07:valid-physical-values-convert-without-error", False)
+            return
+        H.check("C07,C03:a-text-converts-to-a-value-of-its-own-scale", H.And(los[i] <= xi, xi <= his[i]))
+    H.check("C07:unknown-text-is-not-valid", H.Not(cm.is_valid_physical_value("no such text")))
